@@ -249,6 +249,15 @@ unsafe impl GlobalAlloc for Ledger {
         let s = st();
         match index_find(s, ptr as usize) {
             None => {
+                // Rust never requests zero bytes from the allocator, so a zero-size release is
+                // the release of something that was never allocated (e.g. a dangling Box<ZST>).
+                if tracking() && layout.size() == 0 {
+                    drop(g);
+                    crate::violation(
+                        "free-unallocated",
+                        format!("dealloc called for a zero-size layout (align {}) on a pointer the allocator never handed out", layout.align()),
+                    );
+                }
                 // Not a tracked block start. Interior pointer into a tracked block?
                 if tracking() {
                     let p = ptr as usize;
